@@ -62,7 +62,7 @@ PROPS = {
         "rule": "problem texts: the repository's own test cases, generated valid texts (points, circles, arcs, all instruction forms), unsolvable and contradictory ones, and mutated / malformed ones; each is run through the release `ezpz` binary by path and by stdin, with and without --show-points; exit status, absence of panic and every stdout line are compared with the model's rendering of the library outcome computed in-process",
     },
     "C17": {
-        "modules": ["Ezpz.Proofs.Assembly", "Ezpz.Proofs.Union", "Ezpz.Real.Union", "Ezpz.Real.UnionEntry", "Ezpz.Real.GaussNewton2", "Ezpz.Real.StopTests", "Ezpz.Properties.C06"],
+        "modules": ["Ezpz.Proofs.Assembly", "Ezpz.Proofs.Union", "Ezpz.Real.Union", "Ezpz.Real.UnionEntry", "Ezpz.Real.GaussNewton2", "Ezpz.Real.StopTests", "Ezpz.Properties.C06", "Ezpz.Real.UnionMany"],
         "suites": [
             {"suite": "trace", "quick": (2000, "planted,linear,prio,contra,pinned,collapsed,large"), "thorough": (18000, "planted,linear,prio,contra,caps,conflict,pinned,collapsed,large")},
         ],
@@ -70,7 +70,7 @@ PROPS = {
             {"bin": "oracle_c17", "quick": ("{seed}", "1500", "12"), "thorough": ("{seed}", "3000", "200")},
         ],
         "partial": ["iterates_restrict is proved (Union.lean: newtonStep_union, newtonRun_union, newtonLoop_union_prefix, newtonLoop_union_converged, residual_test_union_iff, union_values_split; blockSolve_of_exact shows exact solvers satisfy the block hypothesis): while both groups keep iterating the union's values are the concatenation of the groups' values, the union returns at the residual test iff both groups do, and in every case the new values of a group are computed from that group's data only - only the decision when to stop is global (step_test_is_global: the relative step threshold uses the largest coordinate of the whole union). Also proved: requests of groups sharing no variables give a block-diagonal Jacobian and a concatenated residual at every configuration (disjoint_block_structure, disjoint_no_coupling), a group's rows depend only on its own variables (group1_independent, group2_independent), the damped step of the union is exactly the pair of the groups' steps (step_of_blocks), the union's residual test passes iff every group's does and its step norm is the largest group norm (residual_test_of_union, step_norm_of_union), an Ok result has only finite values (C06.ok_implies_finite, which closes the NaN cross-talk path); equality of returned values is therefore exact for equal iteration counts; when one group converges earlier the union keeps stepping it (global stopping rules) and the difference is a convergence quantity, left to the oracle (<= 1e-5*scale)",
-                    "scope of the theorems: TWO groups, group 1's requests listed before group 2's, ids 0..n1-1 then shifted by n1, one priority level; 'from two to hundreds of groups, however interleaved and numbered' is reached only by composing with the C12 permutation / renumbering theorems and by induction over groups, neither of which is carried out in Lean - the oracle covers unions of up to 200 groups with interleaved requests and shuffled ids",
+                    "scope of the theorems: any number k >= 1 of groups (Real/UnionMany.lean: solveWithPriority_unionMany_converged, by induction with the two-group theorem; newton_union_byResidual supplies the ghost flag for the induction), in any interleaving of the requests and any numbering of the variables (solveWithPriority_unionMany_any_order(_exact), by composition with the C12 permutation / renumbering theorems: values reordered by the renumbering, same iteration count, unsatisfied list mapped through the position permutation up to order); remaining restrictions, stated in the hypotheses: one priority level, no freedom analysis, every group returns at the residual test, all groups report the same iteration count, exact solvers with one common positive damping - the cases outside (different round counts, step-size stops) are the convergence quantities left to the oracle",
                     "known finding F16: a group that is inconsistent and rank-deficient may converge alone and not in the union (or vice versa) because of rounding noise in the null space"],
         "assumptions": ["the LU answer is a parameter; over the reals it is characterised by IsStep"],
         "rule": "disjoint unions of 2..200 planted or linear sub-systems (each 1..12 constraints), requests interleaved at random, variable ids offset and shuffled; each group is first solved alone on the real code; the union must succeed with the same verdicts per group and the same values for every variable that is not under-constrained within 1e-5*scale",
